@@ -1,6 +1,387 @@
-//! C16 — not built yet.
+//! C16 — only the queried server's matching reply completes a query.
+//!
+//! UDP: the real `UdpClientStream::send_message` over a scripted `DnsUdpSocket`/`RuntimeProvider`
+//! in virtual time (`c16/udp.rs`, `c16/vtime.rs`).
+use std::net::{IpAddr, Ipv4Addr, Ipv6Addr, SocketAddr};
+
 use crate::common::*;
 
-pub fn run(_o: &Opts, rec: &mut Recorder) {
-    rec.rule = "stub".into();
+#[path = "c16/udp.rs"]
+mod udp;
+#[path = "c16/vtime.rs"]
+mod vtime;
+
+use udp::{Ev, UdpCase, Q};
+
+pub fn exec(line: &str, rec: &mut Recorder) {
+    let t: Vec<&str> = line.split_whitespace().collect();
+    match t.first().copied() {
+        Some("udp") => exec_udp(line, &t, rec),
+        _ => rec.stat("skipped.unparsable-case"),
+    }
+}
+
+// ------------------------------------------------------------------------------------------------
+// UDP
+
+/// Is the descriptor of every scripted datagram what the real parser sees in its bytes?
+fn script_consistent(c: &UdpCase) -> bool {
+    for (t, sc) in c.scripts.iter().enumerate() {
+        for (j, e) in sc.iter().enumerate() {
+            if let Ev::D { parses, resp, id, qs, raw, .. } = e {
+                if raw.is_none() && !*parses {
+                    return false;
+                }
+                let bytes = udp::dgram_bytes(t, j, e).unwrap().0;
+                if bytes.len() > 512 {
+                    return false;
+                }
+                let (p, r, i, q) = udp::abstract_bytes(&bytes);
+                if p != *parses || (p && (r != *resp || i != *id || &q != qs)) {
+                    if std::env::var("HKDEBUG").is_ok() {
+                        eprintln!("inconsistent {t}.{j}: {} real=({p},{r},{i},{})", udp::ev_tok(e), udp::qs_tok(&q));
+                    }
+                    return false;
+                }
+            }
+        }
+    }
+    true
+}
+
+fn exec_udp(line: &str, t: &[&str], rec: &mut Recorder) {
+    let Some(c) = udp::parse_case(t) else {
+        rec.stat("skipped.unparsable-case");
+        return;
+    };
+    if !script_consistent(&c) {
+        rec.stat("skipped.udp-descriptor-differs-from-bytes");
+        return;
+    }
+    let r = catch(|| udp::run_case(&c));
+    let run = match r {
+        Err(p) => {
+            let idx = rec.case(line.to_string(), format!("panic {p}"));
+            rec.fail(idx, format!("panic: {p}"), "");
+            return;
+        }
+        Ok(None) => {
+            rec.stat("skipped.unparsable-case");
+            return;
+        }
+        Ok(Some(run)) => run,
+    };
+    // the request that went out must be the scripted one, else the case says nothing
+    if let Some(sent) = &run.sent_first {
+        let (p, r, i, q) = udp::abstract_bytes(sent);
+        if !(p && !r && i == c.id && q == c.qs) {
+            rec.stat("skipped.udp-request-not-roundtrip");
+            return;
+        }
+    }
+    let out = format!(
+        "{} c={}",
+        run.outcome,
+        run.consumed.iter().map(|x| x.to_string()).collect::<Vec<_>>().join(",")
+    );
+    let idx = rec.case(line.to_string(), out);
+    rec.stat("op.udp");
+    rec.stat(&format!("udp.outcome.{}", run.outcome.split(' ').next().unwrap()));
+    rec.stat(&format!("udp.transmissions.{}", run.consumed.len()));
+    rec.stat(&format!("udp.case_randomization.{}", b(c.case_rand)));
+    let total: usize = run.consumed.iter().sum();
+    rec.stat(&format!("udp.consumed-total.{}", total.min(9)));
+    // ---- oracle (script + implementation result only)
+    if run.outcome == "hang" {
+        rec.fail(idx, "query neither completed nor timed out", "");
+    }
+    if run.outcome == "ok ?" {
+        rec.fail(idx, "query completed with a response that is none of the consumed datagrams", "");
+    }
+    if let Some((t, j)) = run.accepted {
+        let e = &c.scripts[t][j];
+        if let Some(why) = udp::mismatch(&c, e) {
+            rec.fail(idx, format!("accepted datagram {t}.{j}: {why}"), "");
+        }
+    }
+    for (t, n) in run.consumed.iter().enumerate() {
+        if *n > 3 {
+            rec.fail(idx, format!("transmission {t} examined {n} > 3 datagrams"), "");
+        }
+    }
+    if !run.all_sent_to_server {
+        rec.fail(idx, "a transmission went to an address other than the queried server", "");
+    }
+    // skipped-vs-failed census (the property says "skipped"; the code fails the query on some kinds)
+    if run.outcome == "err" {
+        rec.stat("udp.err");
+    }
+    // non-trivial: something forged was examined, or a reply was accepted after at least one other datagram
+    let forged_examined = c.scripts.iter().zip(&run.consumed).any(|(sc, n)| sc.iter().take(*n).any(|e| udp::mismatch(&c, e).is_some()));
+    if forged_examined || run.accepted.map(|(t, j)| t + j > 0).unwrap_or(false) {
+        rec.nontrivial(idx);
+    }
+    for (sc, n) in c.scripts.iter().zip(&run.consumed) {
+        for e in sc.iter().take(*n) {
+            rec.stat(&format!("udp.examined.{}", udp::mismatch(&c, e).unwrap_or("matching").replace(' ', "-")));
+        }
+    }
+}
+
+// ---- generator
+
+fn gen_label(r: &mut Rng) -> Vec<u8> {
+    let n = r.range(1, 8) as usize;
+    (0..n)
+        .map(|_| match r.below(12) {
+            0 => b'0' + r.below(10) as u8,
+            1 => b'-',
+            2 => r.byte(), // arbitrary octet
+            3..=6 => b'A' + r.below(26) as u8,
+            _ => b'a' + r.below(26) as u8,
+        })
+        .collect()
+}
+
+fn gen_q(r: &mut Rng) -> Q {
+    let n = r.range(1, 4) as usize;
+    Q {
+        labels: (0..n).map(|_| gen_label(r)).collect(),
+        qtype: *r.pick(&[1u16, 1, 1, 28, 15, 16, 2, 6, 255, 65, 12345]),
+        qclass: *r.pick(&[1u16, 1, 1, 1, 3, 255, 4000]),
+    }
+}
+
+fn flip_case(r: &mut Rng, q: &Q) -> Q {
+    let mut q = q.clone();
+    let mut flipped = false;
+    for l in q.labels.iter_mut() {
+        for c in l.iter_mut() {
+            if c.is_ascii_alphabetic() && r.chance(1, 2) {
+                *c ^= 0x20;
+                flipped = true;
+            }
+        }
+    }
+    if !flipped {
+        // make sure at least one letter differs if there is a letter at all
+        'o: for l in q.labels.iter_mut() {
+            for c in l.iter_mut() {
+                if c.is_ascii_alphabetic() {
+                    *c ^= 0x20;
+                    break 'o;
+                }
+            }
+        }
+    }
+    q
+}
+
+fn gen_ip(r: &mut Rng) -> IpAddr {
+    match r.below(4) {
+        0 => IpAddr::V6(Ipv6Addr::from(((r.next() as u128) << 64) | r.next() as u128)),
+        1 => IpAddr::V6(Ipv4Addr::from(r.next() as u32).to_ipv6_mapped()),
+        _ => IpAddr::V4(Ipv4Addr::from(r.next() as u32)),
+    }
+}
+
+/// the other spelling of the same canonical address, if there is one
+fn alias_ip(ip: IpAddr) -> Option<IpAddr> {
+    match ip {
+        IpAddr::V4(x) => Some(IpAddr::V6(x.to_ipv6_mapped())),
+        IpAddr::V6(x) => x.to_ipv4_mapped().map(IpAddr::V4),
+    }
+}
+
+fn near_ip(r: &mut Rng, ip: IpAddr) -> IpAddr {
+    match ip {
+        IpAddr::V4(x) => IpAddr::V4(Ipv4Addr::from(u32::from(x) ^ (1 << r.below(32)))),
+        IpAddr::V6(x) => match r.below(3) {
+            // IPv4-compatible (not mapped) form of a mapped address, or a flipped bit
+            0 if x.to_ipv4_mapped().is_some() => IpAddr::V6(Ipv6Addr::from(u128::from(x) & 0xffff_ffff)),
+            _ => IpAddr::V6(Ipv6Addr::from(u128::from(x) ^ (1u128 << r.below(128)))),
+        },
+    }
+}
+
+const KINDS: &[&str] = &[
+    "genuine", "genuine", "genuine", "wrong-ip", "wrong-port", "alias-ip", "wrong-id", "wrong-name", "wrong-type",
+    "wrong-class", "extra-question", "no-question", "one-of-two", "case-flip", "garbage", "truncated", "query-type",
+    "io-err", "wrong-ip-garbage", "dup-question",
+];
+
+fn gen_event(r: &mut Rng, c: &UdpCase, kind: &str, delay: u64) -> Ev {
+    let mut src = c.server;
+    let mut id = c.id;
+    let mut qs = c.qs.clone();
+    let mut resp = true;
+    let mut raw: Option<Vec<u8>> = None;
+    match kind {
+        "wrong-ip" => src.set_ip(if r.chance(1, 2) { near_ip(r, c.server.ip()) } else { gen_ip(r) }),
+        "wrong-port" => src.set_port(if r.chance(1, 2) { c.server.port() ^ (1 << r.below(16)) } else { r.next() as u16 }),
+        "alias-ip" => {
+            if let Some(a) = alias_ip(c.server.ip()) {
+                src.set_ip(a)
+            }
+        }
+        "wrong-id" => id = if r.chance(1, 2) { c.id ^ (1 << r.below(16)) } else { r.next() as u16 },
+        "wrong-name" => {
+            if qs.is_empty() || r.chance(1, 3) {
+                qs = vec![gen_q(r)];
+            } else {
+                let k = r.below(qs.len() as u64) as usize;
+                match r.below(3) {
+                    0 => qs[k].labels.insert(0, gen_label(r)),
+                    1 => {
+                        let l = r.below(qs[k].labels.len() as u64) as usize;
+                        let p = r.below(qs[k].labels[l].len() as u64) as usize;
+                        qs[k].labels[l][p] = qs[k].labels[l][p].wrapping_add(1 + r.below(5) as u8);
+                    }
+                    _ => {
+                        if qs[k].labels.len() > 1 {
+                            qs[k].labels.remove(0);
+                        } else {
+                            qs[k].labels.push(gen_label(r));
+                        }
+                    }
+                }
+            }
+        }
+        "wrong-type" => {
+            if let Some(q) = qs.first_mut() {
+                q.qtype = q.qtype.wrapping_add(1 + r.below(3) as u16)
+            }
+        }
+        "wrong-class" => {
+            if let Some(q) = qs.first_mut() {
+                q.qclass = q.qclass.wrapping_add(1 + r.below(3) as u16)
+            }
+        }
+        "extra-question" => {
+            let e = gen_q(r);
+            let at = r.below(qs.len() as u64 + 1) as usize;
+            qs.insert(at, e);
+        }
+        "no-question" => qs.clear(),
+        "one-of-two" => {
+            if qs.len() > 1 {
+                let k = r.below(qs.len() as u64) as usize;
+                qs.remove(k);
+            }
+        }
+        "dup-question" => {
+            if let Some(q) = qs.first().cloned() {
+                qs.push(if r.chance(1, 2) { flip_case(r, &q) } else { q });
+            }
+        }
+        "case-flip" => {
+            if !qs.is_empty() {
+                let k = r.below(qs.len() as u64) as usize;
+                qs[k] = flip_case(r, &qs[k]);
+            }
+        }
+        "query-type" => resp = false,
+        "garbage" | "wrong-ip-garbage" => {
+            let n = r.below(40) as usize;
+            let mut g = r.bytes(n);
+            if g.len() >= 2 && r.chance(1, 2) {
+                g[0] = (c.id >> 8) as u8;
+                g[1] = c.id as u8;
+            }
+            raw = Some(g);
+            if kind == "wrong-ip-garbage" {
+                src.set_ip(near_ip(r, c.server.ip()));
+            }
+        }
+        "truncated" => {
+            let full = udp::encode_dgram(c.id, true, &c.qs, 0x7fff_0000 | r.below(65536) as u32);
+            let cut = r.below(full.len() as u64) as usize;
+            raw = Some(full[..cut].to_vec());
+        }
+        "io-err" => return Ev::E { delay },
+        _ => {}
+    }
+    if let Some(bytes) = &raw {
+        let (p, rr, i, q) = udp::abstract_bytes(bytes);
+        return Ev::D { delay, src, parses: p, resp: rr, id: i, qs: q, raw };
+    }
+    Ev::D { delay, src, parses: true, resp, id, qs, raw: None }
+}
+
+fn gen_udp(r: &mut Rng) -> UdpCase {
+    let nq = match r.below(20) {
+        0 => 0,
+        1 | 2 => 2,
+        _ => 1,
+    };
+    let interval = *r.pick(&[400u64, 1000, 2600]);
+    let (retry_interval, floor) = match r.below(3) {
+        0 => (interval, *r.pick(&[0u64, 100, interval])),
+        1 => (*r.pick(&[0u64, 10, interval]), interval),
+        _ => (interval, interval),
+    };
+    let mut c = UdpCase {
+        timeout: *r.pick(&[2010u64, 5010, 810]),
+        retry_interval,
+        floor,
+        max_retries: *r.pick(&[0u8, 1, 2, 3, 3, 3, 5]),
+        server: SocketAddr::new(gen_ip(r), if r.chance(2, 3) { 53 } else { r.range(1, 65535) as u16 }),
+        id: r.next() as u16,
+        case_rand: r.chance(1, 2),
+        qs: (0..nq).map(|_| gen_q(r)).collect(),
+        scripts: vec![],
+    };
+    let tasks = (c.max_retries as u64).max(1);
+    let n_scripts = r.below(tasks + 1).min(4) as usize + if r.chance(1, 2) { 1 } else { 0 };
+    // absolute instants already used by another socket or by a timer: never reuse one
+    let mut used: Vec<u64> = (0..=tasks).map(|i| i * interval).collect();
+    used.push(c.timeout);
+    for t in 0..n_scripts.min(tasks as usize) {
+        let n = match r.below(10) {
+            0 => 0,
+            1..=3 => r.range(1, 2),
+            4..=7 => r.range(2, 4),
+            _ => r.range(3, 6),
+        } as usize;
+        let start = t as u64 * interval;
+        let mut at = start;
+        let mut sc = vec![];
+        let mut mine: Vec<u64> = vec![];
+        let hostile = r.chance(1, 3);
+        for _ in 0..n {
+            let mut d = match r.below(6) {
+                0..=2 => 0,
+                3 => r.range(1, 50),
+                4 => r.range(1, interval),
+                _ => r.range(1, 2 * interval),
+            };
+            while d > 0 && used.contains(&(at + d)) {
+                d += 1;
+            }
+            at += d;
+            mine.push(at);
+            let kind = if hostile && r.chance(2, 3) { *r.pick(&KINDS[3..]) } else { *r.pick(KINDS) };
+            sc.push(gen_event(r, &c, kind, d));
+        }
+        used.extend(mine);
+        c.scripts.push(sc);
+    }
+    c
+}
+
+pub fn run(o: &Opts, rec: &mut Recorder) {
+    rec.rule = "UDP: scripted arrival lists (genuine reply + forged datagrams of 17 kinds: wrong ip/port/id/name/type/class, extra/duplicate/missing question, case flip, garbage, truncation, QR=0, recv error, v4-mapped alias) per transmission, with delays, with and without case randomisation; a case is non-trivial when a non-matching datagram was examined or a reply was accepted after at least one other datagram; distinct by case line".into();
+    for l in o.pre_lines.clone() {
+        exec(&l, rec);
+    }
+    rec.corpus_cases = rec.cases.len();
+    if o.replay_only {
+        return;
+    }
+    let mut r = Rng::new(o.seed);
+    let n = o.n(4000, 150_000);
+    for _ in 0..n {
+        let c = gen_udp(&mut r);
+        exec(&udp::case_line(&c), rec);
+    }
 }
